@@ -140,13 +140,15 @@ type MTx struct {
 	Code     *string
 	DescKind string // none plain payee-note
 	Desc     string
-	Payee    string
-	Note     string
-	PipeSp   bool
-	Seps     []string // separators between header parts
-	HCGap    string
-	HComment *MComment
-	Lines    []MTxLine
+	// DescTrail: Unicode blanks behind the description / note (not part of it)
+	DescTrail string
+	Payee     string
+	Note      string
+	PipeSp    bool
+	Seps      []string // separators between header parts
+	HCGap     string
+	HComment  *MComment
+	Lines     []MTxLine
 }
 
 func (t *MTx) Postings() []*MPosting {
@@ -486,6 +488,7 @@ func (w *lineWriter) tx(t *MTx) {
 	case "plain":
 		sep()
 		w.lex("desc", "", t.Desc, t.Desc)
+		w.raw(t.DescTrail)
 	case "payee-note":
 		sep()
 		w.lex("payee", "", t.Payee, t.Payee)
@@ -497,6 +500,7 @@ func (w *lineWriter) tx(t *MTx) {
 			w.raw(" ")
 		}
 		w.lex("note", "", t.Note, "")
+		w.raw(t.DescTrail)
 	}
 	if t.HComment != nil {
 		w.raw(t.HCGap)
